@@ -306,7 +306,7 @@ type dagAPI struct{ p *Peer }
 func (d *dagAPI) Pinning() ipld.NodeAdder { return d }
 
 func (d *dagAPI) Get(ctx context.Context, c cid.Cid) (ipld.Node, error) {
-	if err := ctx.Err(); err != nil {
+	if err := ctx.Err(); err != nil && !d.p.net.Gates.Deaf {
 		return nil, err
 	}
 	ans, err := d.p.net.Gates.Pass(ctx, "dag.get", d.p.Name, c.String())
@@ -334,7 +334,7 @@ func (d *dagAPI) GetMany(ctx context.Context, cs []cid.Cid) <-chan *ipld.NodeOpt
 }
 
 func (d *dagAPI) Add(ctx context.Context, n ipld.Node) error {
-	if err := ctx.Err(); err != nil {
+	if err := ctx.Err(); err != nil && !d.p.net.Gates.Deaf {
 		return err
 	}
 	ans, err := d.p.net.Gates.Pass(ctx, "dag.add", d.p.Name, n.Cid().String())
